@@ -76,6 +76,22 @@ package netstate
 //@   opt safety [C19]
 //@   opt frame [C19]
 
+// process (watcher_linux.go): the translation of a batch of rtnetlink messages into
+// the change set handed to notify. Every link message that carries attributes and
+// a recognised operational state leaves a non-empty change list for the interface
+// it names (no change of an interface is dropped because of what another message
+// of the batch said).
+//@ macro lmOf(m) = as(m, "*rtnetlink.LinkMessage")
+//@ macro linkQual(m) = isType(m, "*rtnetlink.LinkMessage") && lmOf(m).Attributes != nil && lmOf(m).Attributes.OperationalState <= 6
+//@ func process
+// (assumed of the rtnetlink library: a received batch holds no typed-nil messages; the
+// caller, the OS-specific watch function, is outside the verified scope)
+//@   requires P1: forall(k, 0, len(msgs), msgs[k].val > 0)
+//@   assigns everything
+//@   loop 1 invariant L1 [C19]: 0 <= rangeindex + 1 && rangeindex + 1 <= len(msgs) && forall(k, 0, rangeindex + 1, linkQual(msgs[k]) ==> has(changes, lmOf(msgs[k]).Attributes.Name) && len(changes[lmOf(msgs[k]).Attributes.Name]) > 0)
+//@   ensures E1 [C19]: forall(k, 0, len(msgs), linkQual(msgs[k]) ==> has(result, lmOf(msgs[k]).Attributes.Name) && len(result[lmOf(msgs[k]).Attributes.Name]) > 0)
+//@   opt safety [C19]
+
 //@ func operStateChange
 //@   ensures E1 [C19]: result1 == (0 <= s && s <= 6)
 //@   ensures E2 [C19]: result1 ==> result0 == ite(s == 0, 8, ite(s == 1, 32, ite(s == 2, 2, ite(s == 3, 64, ite(s == 4, 4, ite(s == 5, 16, 1))))))
